@@ -495,7 +495,7 @@ def shared_tag_case(rng) -> dict:
 
 
 # ---------------------------------------------------------------- entry
-GUARDS = {1: "F13a", 2: "F13b"}   # F01e and F13c are fixed
+GUARDS: dict[int, str] = {}   # F13a, F13b, F13c and F01e are fixed: any oracle failure is a violation
 
 
 def main(chk: Check, replay: dict | None = None) -> int:
